@@ -128,9 +128,15 @@ def stage1(tier, v, cov):
     cov["transitions"] = trans
 
 
+class Crashed(Exception):
+    """The driver process died (a panic of the code under test kills it); what it had written is still judged."""
+
+
 def drive(binary, args, timeout=900):
     rc, so, se = vlib.run_driver(binary, args, timeout=timeout)
     if rc != 0:
+        if rc is not None and "panic:" in (se or ""):
+            raise Crashed((se or "")[(se or "").index("panic:"):][:3000])
         raise vlib.Inconclusive("announce driver failed (rc=%s): %s" % (rc, (se or "")[-3000:]))
     return json.loads(so.strip().splitlines()[-1])
 
@@ -269,9 +275,17 @@ def run(prop, tier, seed, replay=None):
         tag, args = job
         out = os.path.join(wd, "trace-%s.ndjson" % tag)
         ta = time.time()
-        st = drive(binary, args + ["-out", out], timeout=1500)
+        try:
+            st = drive(binary, args + ["-out", out], timeout=1500)
+        except Crashed as c:
+            # the segments completed before the crash were flushed; the one in progress is lost
+            n = len(vlib.read_trace(out)) if os.path.exists(out) else 0
+            st = dict(segments=len(set(vlib.seg_of(x) for x in vlib.read_trace(out))) if n else 0, events=n, crashed=str(c))
         tb = time.time()
-        tv = validate(out, wd, tag)
+        tv = validate(out, wd, tag) if os.path.exists(out) else dict(lines=0, segments=0, accepted_segments=0, states=0, violations=[], inconclusive=[])
+        if st.get("crashed") and not tv["violations"]:
+            tv["inconclusive"].append("the driver process of job %s died (nothing in the %d scenarios it had completed violates the property): %s"
+                                      % (tag, st["segments"], st["crashed"][:1500]))
         log("    job %s: %d scenarios driven in %.0fs, %d lines validated in %.0fs (%d states)" % (tag, st["segments"], tb - ta, tv["lines"], time.time() - tb, tv["states"]))
         return tag, out, st, tv
 
@@ -292,7 +306,9 @@ def run(prop, tier, seed, replay=None):
         tot["tstates"] += tv["states"]
         cov["traces_validated_against_impl"] += tv["accepted_segments"]
         v.inconclusive.extend(tv["inconclusive"])
-        lines = vlib.read_trace(out)
+        if st.get("crashed"):
+            notes.append("driver job %s died after %d scenarios: %s" % (tag, st["segments"], st["crashed"].strip().splitlines()[0][:200] if st["crashed"].strip() else ""))
+        lines = vlib.read_trace(out) if os.path.exists(out) else []
         if not cov["samples"] and lines:
             cov["samples"] = [json.loads(x) for x in lines[:14]]
             for s in cov["samples"]:
